@@ -204,5 +204,62 @@ def run(tier, replay=None):
                % bad_extra[1].get('l'), key='E2n|%s|extra' % f['name'])
     run_vertex_count(chk, F)
     run_graph_values(chk, F)
+    run_announced_removals(chk, fns)
+    # the incremental route finds cofaces through the per-label node lists: every node the expansion routes create
+    # is registered in them (rule shared with C01)
+    c01.run_r1(chk, fns, G, only=('create_expansion', 'siblings_expansion', 'siblings_expansion_with_blockers',
+                                  'compute_punctual_expansion', 'insert_edge_as_flag', 'create_local_expansion',
+                                  'insert_graph'), min_count=4)
     chk.assumptions += ['clang 14 parser', 'class-local call resolution by name', 'for-all loop idiom (DESIGN 3/E2 i)']
     return chk
+
+
+# ------------------------------------------------------------------ E2 announced removals happen before the descent
+
+def run_announced_removals(chk, fns):
+    """E2: a simplex the oracle blocked is announced for removal (update_simplex_tree_before_node_removal) and then
+    erased from its sibling set. The expansion recurses into that sibling set, and the next level decides which
+    cofaces to create by looking its faces up in it: on every path, between the announcement and the recursive
+    descent the announced members are erased (or the whole set deleted) - otherwise cofaces of a blocked simplex
+    are created and survive it (the result is not a simplicial complex)."""
+    n = 0
+    for f in fns:
+        if f.get('body') is None:
+            continue
+        has_announce = ir.contains(f['body'], lambda x: ir.is_call(x) and ir.call_name(x) ==
+                                   'update_simplex_tree_before_node_removal')
+        recurses = ir.contains(f['body'], lambda x: ir.is_call(x) and ir.is_this_call(x) and
+                               ir.call_name(x) == f['name'])
+        if not (has_announce and recurses):
+            continue
+        n += 1
+
+        def cl(x, f=f):
+            if ir.is_call(x):
+                nm = ir.call_name(x)
+                if nm == 'update_simplex_tree_before_node_removal':
+                    return ['ANNOUNCE']
+                if nm == 'erase' and 'members' in ir.show(x):
+                    return ['ERASE']
+                if ir.is_this_call(x) and nm == f['name']:
+                    return ['DESCEND']
+            if x.get('k') == 'CXXDeleteExpr':
+                return ['ERASE']
+            return []
+        ps = paths.enumerate_paths(f, cl, loop_mode='1', keep_conds=False, cap=20000)
+        bad = None
+        for p in ps:
+            pending = False
+            for t in p.tags():
+                if t == 'ANNOUNCE':
+                    pending = True
+                elif t == 'ERASE':
+                    pending = False
+                elif t == 'DESCEND' and pending and bad is None:
+                    bad = p
+        chk.ob('E2-announced-removal', '%s: members announced for removal are erased before the recursive descent '
+               '(%d paths)' % (f['name'], len(ps)), '%s:%d' % (rel(f['file']), f['line']), bad is None,
+               '' if bad is None else 'a path announces the removal of blocked members, recurses into their sibling '
+               'set and erases them only afterwards: the next level finds the blocked simplices as faces',
+               key='E2|%s|announced-removal' % f['name'])
+    chk.expect_count('E2-announced-removal', 'recursive functions announcing removals', n, 1)
